@@ -1433,29 +1433,28 @@ class CircuitTemplate(AbstractBaseTemplate):
         if depth > self._depth:
             raise ValueError('Input depth does not match the hierarchical depth of the circuit.')
 
-        path = []
-        input_circuits = {}
-        inp_circuit = input_circuits
+        path = [f"input_lvl_{i}" for i in range(depth)]
+
+        # flat circuit: the input node sits next to the other nodes
+        if depth == 0:
+            return node_key, self.update_template(nodes={node_key: node})
+
+        # hierarchical circuit: the input node sits in a chain of nested circuits input_lvl_0/.../input_lvl_<depth-1>
+        # so that it has the same hierarchical depth as all other nodes. Re-use the levels that exist already
+        # (earlier inputs) and build the chain from the innermost circuit outwards.
+        existing = []
         net = self
-        for i in range(depth):
-            circuit_key = f"input_lvl_{i}"
-            if circuit_key not in net.circuits:
-                c = CircuitTemplate(name=circuit_key, path='none')
-                net = net.update_template(circuits={circuit_key: c})
-                inp_circuit[circuit_key] = {}
+        for key in path:
+            net = net.circuits[key] if net is not None and key in net.circuits else None
+            existing.append(net)
+        inner = None
+        for i in reversed(range(depth)):
+            base = existing[i] if existing[i] is not None else CircuitTemplate(name=path[i], path='none')
+            if i == depth - 1:
+                inner = base.update_template(nodes={node_key: node})
             else:
-                inp_circuit[circuit_key] = net.circuits[circuit_key]
-            net = net.circuits[circuit_key]
-            if i < depth - 1:
-                inp_circuit = inp_circuit[circuit_key]
-            else:
-                net = net.update_template(nodes={node_key: node})
-                inp_circuit[circuit_key] = net
-            path.append(circuit_key)
-        else:
-            net = net.update_template(nodes={node_key: node})
-        if depth > 0:
-            net = self.update_template(circuits=input_circuits)
+                inner = base.update_template(circuits={path[i + 1]: inner})
+        net = self.update_template(circuits={path[0]: inner})
         return "/".join(path + [node_key]), net
 
     def _get_nodes_with_var(self, var: tuple, nodes: list) -> list:
